@@ -203,6 +203,10 @@ Definition legacy_case (cls low : list (N * N)) (cfg nilmap : bool) (user builti
            (input : bytes) : R (ast * list ltoken) :=
   legacy_parse (cls_bit cls 0) (cls_bit cls 1) (cls_bit cls 3) (low_fun low) cfg
                (mk_ftype nilmap user builtin) input.
+Definition legacy_lex_case (cls low : list (N * N)) (cfg nilmap : bool) (user builtin : list (bytes * N))
+           (input : bytes) : R (list tok * list ltoken) :=
+  legacy_lex (cls_bit cls 0) (cls_bit cls 1) (cls_bit cls 3) (low_fun low) cfg
+             (mk_ftype nilmap user builtin) input.
 Definition agg_case (cls low : list (N * N)) (cfg : bool) (input : bytes) : R (option ltoken) :=
   legacy_agg (cls_bit cls 0) (cls_bit cls 1) (cls_bit cls 3) (low_fun low) cfg input.
 
@@ -274,7 +278,14 @@ Definition case_agrees (c : case) : bool :=
   | CRound _ input cls impl_toks => toks_agree (lex_case cls input) impl_toks
   | CLegacy input cls low cfg nilmap user builtin impl _ _ =>
       match legacy_case cls low cfg nilmap user builtin input, impl with
-      | ROk (a, lv), Ok i => tree_agrees lv a i
+      | ROk (a, lv), Ok i =>
+          tree_agrees lv a i
+          (* the converse of C12_legacy_lex_refines_tokens, tested: the tokenizer accepts what the
+             parser accepts, with the same leaf table, and the token-level parser gives the same query *)
+          && match legacy_lex_case cls low cfg nilmap user builtin input with
+             | ROk (ts, lv2) => res_eqb (parse ts) (Ok a) && list_eqb ltoken_eqb lv lv2
+             | _ => false
+             end
       | RErr, Err => true
       | _, _ => false
       end
